@@ -68,11 +68,12 @@ DotKeys == {k \o <<46>> : k \in ShortKeys} \cup {<<46>> \o k : k \in ShortKeys}
            \cup {a \o <<46, 46>> \o b : a \in Segs, b \in Segs}
 EmptySegMissing == \A k \in DotKeys : CheckablePath(k) /\ IsNone(Find(Doc, k)) /\ IsNone(EngFind(Doc, k, {}))
 (* keys whose index is not a number: `a[]`, `a[x]`, `a[*].b`, `b.a[-1]` *)
-BadIdx == {<<>>, <<120>>, <<42>>, <<45, 49>>}
+(* ... a signed index `a[+1]`, `a[+0]`, and a second index group `a[1][0]`, `a[0][1]`          *)
+BadIdx == {<<>>, <<120>>, <<42>>, <<45, 49>>, <<43, 49>>, <<43, 48>>, <<49, 93, 91, 48>>, <<48, 93, 91, 49>>}
 IdxKeys == {KA \o <<91>> \o t \o <<93>> : t \in BadIdx}
            \cup {KA \o <<91>> \o t \o <<93, 46>> \o KB : t \in BadIdx}
            \cup {KB \o <<46>> \o KA \o <<91>> \o t \o <<93>> : t \in BadIdx}
-BadIndexMissing == \A k \in IdxKeys : CheckablePath(k) /\ IsNone(Find(Doc, k)) /\ IsNone(EngFind(Doc, k, {}))
+BadIndexMissing == \A k \in IdxKeys : CheckablePath(k) /\ IsNone(Find(Doc, k)) /\ IsNone(EngFind(Doc, k, Dev))
 
 KnownDeviation(k) == "find_restarts_at_root" \in Dev
 WalkIsFind == \A k \in Keys : WellFormedPath(k) /\ (EngFind(Doc, k, Dev) = Find(Doc, k) \/ KnownDeviation(k))
